@@ -131,6 +131,37 @@ fn store_configs(sb: &Sandbox, files: &Files, cfg: (u64, u64, u64)) -> (Vec<(Str
     if !sep.ok {
         return (out, procs, false);
     }
+    // a package somebody imports is left out of the link (the farther from Main the better):
+    // "missing packages are reported as errors" holds for the last step of the separate pipeline too
+    {
+        let mut depth: BTreeMap<String, usize> = BTreeMap::new();
+        depth.insert("Main".to_string(), 0);
+        let mut frontier = vec!["Main".to_string()];
+        while let Some(cur) = frontier.pop() {
+            let dcur = depth[&cur];
+            if let Some(pk) = layout.pkgs.get(&cur) {
+                for d in &pk.imports {
+                    if layout.pkgs.contains_key(d) && depth.get(d).map(|x| *x < dcur + 1).unwrap_or(true) && dcur < 16 {
+                        depth.insert(d.clone(), dcur + 1);
+                        frontier.push(d.clone());
+                    }
+                }
+            }
+        }
+        let mut imported: Vec<(usize, String)> = depth.iter().filter(|(k, v)| **v > 0 && *k != "Main").map(|(k, v)| (*v, k.clone())).collect();
+        imported.sort();
+        if let Some((dist, gone)) = if op.chance(1, 2) { imported.last().cloned() } else if imported.is_empty() { None } else { Some(imported[op.usize(imported.len())].clone()) } {
+            let cores: Vec<String> = topo.iter().filter(|p| **p != gone).map(|p| format!("out/{p}.core")).collect();
+            let spec = ProcSpec { entropy: ent.next_u64(), readdir: ent.next_u64(), ..Default::default() };
+            let r = ops::goml(sb, &spec, ops::link_args(sb, &cores, "out3/main.go", &mut op));
+            procs += 1;
+            match &r.exit {
+                Exit::Ok => out.push(("missing-package-accepted-by-link".to_string(), format!("C16: `link` succeeds although the core of package {gone} ({dist} import(s) away from Main) is not among its inputs"))),
+                Exit::Panicked(m) => out.push(("crash".to_string(), format!("C16: `link` without the core of package {gone} panics: {m}"))),
+                _ => {}
+            }
+        }
+    }
     // P imports D; X is any other package (its interface will pose as D's)
     let mut cands: Vec<(String, String, String)> = Vec::new();
     for (pn, pk) in &layout.pkgs {
